@@ -63,12 +63,14 @@ def c_obs(o):
         gs.append("(%s, %s, %s, [%s])" % (coq_N(num(g["id"])), coq_N(num(g["coord"])), coq_N(g["epoch"]), "; ".join(ms)))
     gens = []
     for st in o["streams"]:
-        for p in st["parts"]:
+        # the model keeps one "whose data" tag per stream directory; partition 0 exists in every
+        # incarnation of a stream (a re-created stream may have more partitions, whose directories are
+        # new), so it is the one that is read -- when it is paused its log is closed and nothing is compared
+        for p in st["parts"][:1]:
             if not p["paused"]:
                 mk = p["marks"]
                 if len(mk) == 1 and mk[0].startswith("gen"):
                     gens.append("(%s, %s)" % (coq_N(num(st["name"])), coq_N(int(mk[0][3:]))))
-                break
     return "mkObs [%s] [%s] %s [%s]" % ("; ".join(ss), "; ".join(gs), nl(o["disk"]), "; ".join(gens))
 
 
